@@ -121,6 +121,16 @@ func vStepMaker(role int, st StateType) {
 		zzverif.Assert(sc.csvWatchLive(), "C07.waiting_maker_watches_csv")
 	}
 	// ---- C15 ----
+	// The record of the wait that precedes the broadcast is also what is on disk while the broadcasting
+	// action itself runs (C15.record_names_previous_state_while_action_runs): a node restarted from it
+	// cannot know whether the wallet already broadcast.  It must therefore give the swap up (cancel) and
+	// never go on to broadcast - the wait is left for good by the restart.
+	if stim == stRestart && (st == State_SwapOutReceiver_AwaitFeeInvoicePayment || st == State_SwapInSender_AwaitAgreement) {
+		// (a store that fails while the cancellation is being recorded leaves the swap as it was: store
+		// failures during recovery are the subject of known finding C07-F2, not of this obligation)
+		zzverif.Assert(post == State_SwapCanceled || post == State_SendCancel || w.storeFailed, "C15.restart_from_pre_broadcast_wait_gives_up")
+		zzverif.Assert(w.openings == 0, "C15.restart_from_pre_broadcast_wait_never_broadcasts")
+	}
 	zzverif.Assert(w.openings <= 1 && (!broadcast0 || w.openings == 0), "C15.at_most_one_opening_broadcast")
 	zzverif.Assert(len(w.pays) == 0 && len(w.feePays) == 0, "C15.maker_never_pays")
 	// ---- C22 ----
